@@ -109,7 +109,7 @@ func (sf *StreamFeatures) DoesStartTLS() (feature TlsStartTLS, isSupported bool)
 // Reference: RFC 6120 - https://tools.ietf.org/html/rfc6120#section-6.4.1
 type saslMechanisms struct {
 	XMLName   xml.Name `xml:"urn:ietf:params:xml:ns:xmpp-sasl mechanisms"`
-	Mechanism []string `xml:"mechanism"`
+	Mechanism []string `xml:"urn:ietf:params:xml:ns:xmpp-sasl mechanism"`
 }
 
 // StreamManagement
